@@ -102,6 +102,22 @@ Section Assoc.
       apply aget_In in E. apply in_map_iff. exists (k, v). split; [reflexivity | exact E].
     - rewrite in_app_iff. cbn. split; [intros [H|[H|[]]]; auto | intros [H|H]; auto].
   Qed.
+  Lemma In_aupd k f m k2 v2 :
+    In (k2, v2) (aupd k f m) -> (k2 = k /\ v2 = f (aget k m)) \/ In (k2, v2) m.
+  Proof.
+    induction m as [|[k' v] m IH]; cbn [aupd aget].
+    - intros [H|[]]. injection H as <- <-. left. auto.
+    - destruct (eqb k k') eqn:E.
+      + intros [H|H].
+        * injection H as <- <-. apply eqb_eq in E. left. auto.
+        * right. right. exact H.
+      + intros [H|H].
+        * right. left. exact H.
+        * destruct (IH H) as [H1|H1]; [left; exact H1 | right; right; exact H1].
+  Qed.
+
+  Lemma aget_Some_key k v m : aget k m = Some v -> In k (akeys m).
+  Proof. intro H. apply aget_In in H. apply in_map_iff. exists (k, v). auto. Qed.
 End Assoc.
 
 Arguments aget {K V} eqb k m.
